@@ -13,25 +13,25 @@ COMMON_NOTE = " Trusted base: the independent GSE codec (harness/src/wire.rs), t
 
 CHECKS = {
     "C01": X("runtime oracle over a closed length grid: real encap -> real decap round trip compared field by field; must-complete clause judged with the label as written on the wire",
-             "Executes the real encapsulator and decapsulator on every PDU length 0..=4100 x 5 label cases x 7 buffer sizes (exact-1/exact/exact+1, 4097, 4098, 65536, 70000) x re-use on/off x 3 storage sizes, plus seeded random cells over all protocol types and content classes (thorough: every protocol type 0x0600..=0xFFFF). Lengths are closed exhaustively, contents are sampled.",
+             "Executes the real encapsulator and decapsulator on every PDU length 0..=4100 x 5 label cases x 7 buffer sizes (exact-1/exact/exact+1, 4097, 4098, 65536, 70000) x re-use on/off x 3 storage sizes, plus seeded random cells over all protocol types and content classes (thorough: every protocol type 0x0600..=0xFFFF), the same round trip at the end of seeded lock-step histories (trains in flight, failing calls, stale contexts, scarce storage), and runs of 800 packets under every kind of re-use limit. Lengths are closed exhaustively, contents are sampled.",
              "Round-trip fidelity is judged by comparing delivered bytes/metadata with what was passed; completeness by arithmetic on the label length read from the emitted header." + COMMON_NOTE, "DESIGN.md §5 C01"),
     "C02": X("runtime monitor over seeded buffer-size schedules: monitored sender (progress / only-ErrorSizeBuffer clauses) in lock-step with the real receiver (status, metadata, consumed length, final PDU)",
-             "Drives encap + encap_frag over 14 families of buffer-size schedules (constant 13..70000, tiny buffers, payload-fits-but-CRC-does-not, land-on-PDU-end, ramps) for PDUs up to 65533 bytes, every PDU length once (thorough) and feeds every produced packet to a real decapsulator. Held on the schedules generated; the schedule space is unbounded and sampled.",
+             "Drives encap + encap_frag over 16 families of buffer-size schedules (constant 13..70000, tiny buffers, payload-fits-but-CRC-does-not, land-on-PDU-end, ramps) for PDUs up to 65533 bytes, every PDU length once (thorough) and feeds every produced packet to a real decapsulator (storage sizes incl. 65535..65537 and multiples of 64 KiB, memories of 1..3 / 255 / 256 slots); also with the sender working ahead of the receiver from one buffer refilled in place, and along runs of 600 PDUs on one pair of endpoints. Held on the schedules generated; the schedule space is unbounded and sampled.",
              "Sender clauses are the weak reading: every buffer >= 13 accepted, per-buffer progress, completion within remaining+1 useful buffers." + COMMON_NOTE, "DESIGN.md §5 C02"),
     "C03": X("fault enumeration on fragment trains with an online reference reassembler evaluated on the bytes actually received (length + bit-serial CRC) and an end-to-end no-delivery oracle for the named fault classes",
-             "For seeded trains built by the real encapsulator: every single bit flip, every burst of 2..32 bits inside the protected bytes, truncation at every byte, drop/duplicate/swap of every fragment, frag id <- all 256 values, total length <- all 65536 values, CRC replacements, double faults, adversarially re-sealed trains (wrong interpretation sealed with a valid CRC), spliced trains, and > 64 KiB trains with storage >= 64 KiB. Each faulted transfer is executed on the real decapsulator; a delivery is accepted only if the independent reassembly of the received bytes has the announced length and CRC and equals what was delivered.",
+             "For seeded trains built by the real encapsulator: every single bit flip, every burst of 2..32 bits inside the protected bytes, truncation at every byte, drop/duplicate/swap of every fragment, frag id <- all 256 values, total length <- all 65536 values, CRC replacements, double faults, adversarially re-sealed trains (wrong interpretation sealed with a valid CRC), spliced trains, > 64 KiB trains with storage >= 64 KiB, and 4..64 KiB PDUs fragmented by the real encapsulator with faults spread over the whole PDU; every other faulted transfer follows a delivery of the intact train on the same receiver. Each faulted transfer is executed on the real decapsulator; a delivery is accepted only if the independent reassembly of the received bytes has the announced length and CRC and equals what was delivered.",
              "CRC collisions for bursts > 32 bits are possible and not alarms (oracle 1 is evaluated on received bytes). Header-bit faults are judged by oracle 1 only." + COMMON_NOTE, "DESIGN.md §5 C03", "fault_enumeration"),
     "C04": X("lock-step sender/receiver history monitor with ground-truth labels (exhaustive bounded-depth histories + random) and a receiver-only trace monitor on mutated streams",
-             "All lock-step histories to depth 4 (quick) / 5 (thorough) over a 34-operation alphabet (labels, fitting / fragmenting / failing calls, continuations, resets, re-use configuration changes) plus long random histories; every produced packet is decapsulated at once and the attributed label compared with the label the caller passed. Independently, recorded traffic is mutated and the receiver's re-use resolutions are checked against the label carried by the nearest preceding start/complete packet.",
+             "All lock-step histories to depth 4 (quick) / 5 (thorough) over an alphabet of about 50 operations (8 labels incl. look-alikes; fitting / fragmenting / header-only / failing calls of every failing kind through encap and encap_ext, signalling PDUs, continuations, continuations from stale contexts, resets, re-use configuration changes, accessor calls, the receiving application draining and refilling the pool; the exact list is in the evidence file) plus long random histories; every produced packet is decapsulated at once and the attributed label compared with the label the caller passed. Independently, recorded traffic is mutated and the receiver's re-use resolutions are checked against the label carried by the nearest preceding start/complete packet.",
              "Bounded depth is closed exhaustively for the chosen alphabet; longer histories are sampled." + COMMON_NOTE, "DESIGN.md §5 C04"),
-    "C05": X("totality monitor: catch_unwind + consumed-length bounds on exhaustive short inputs, all 65536 header words with structured tails, mutated valid packets and hostile histories, in 14 receiver states (+ a 64 KiB state)",
-             "Every byte string of length 0..=2 (thorough: 0..=3) in each of 14 receiver states; every header word x 7 buffer lengths x adversarial tails; mutated valid packets; random buffers to 8 KiB; hostile histories incl. storage >= 64 KiB with a context near 65535 bytes; the peek function on every input. Panics (also arithmetic-overflow panics in the checked profile) and consumed lengths outside [min(2,len), len] are violations. Thorough tier adds a Miri / ASan layer (memory-safety net).",
+    "C05": X("totality monitor: catch_unwind + consumed-length bounds on exhaustive short inputs, all 65536 header words with structured tails, mutated valid packets and hostile histories, in 15 receiver states (+ a 64 KiB state)",
+             "Every byte string of length 0..=2 (thorough: 0..=3) in each of 15 receiver states; every header word x 7 buffer lengths x adversarial tails; mutated valid packets; random buffers to 8 KiB; hostile histories incl. storage >= 64 KiB with a context near 65535 bytes; the peek function on every input; a reassembly open on all 256 fragment ids at once; a memory wrapper that refuses every trait operation in turn with every documented error; managers declaring 253..255-byte extensions. Panics (also arithmetic-overflow panics in the checked profile) and consumed lengths outside [min(2,len), len] are violations. Thorough tier adds a Miri / ASan layer (memory-safety net).",
              "Inputs longer than 3 bytes are sampled, not closed." + COMMON_NOTE, "DESIGN.md §5 C05"),
     "C06": X("independent parser + byte-exact reference serialiser on every emitted packet over the size lattice, sentinel bytes around the reported length",
              "Every successful encap / encap_frag / encap_ext call of the sender workload (full L x L size lattice for the first call and for continuations, every context position of small PDUs x every buffer size 0..=40, protocol-type sweep, extension chains, prior states) is parsed by an independent TS 102 606 reader, compared byte for byte with a reference serialisation of the intended fields, and the buffer beyond the reported length is compared with a sentinel pattern.",
              "With extensions the total-length field is not judged (the property only fixes it for extension-less packets)." + COMMON_NOTE, "DESIGN.md §5 C06"),
     "C07": X("exhaustive enumeration of order-preserving merges executed on the real receiver, compared packet by packet with each train decapsulated alone; stray packets inserted at every position",
-             "All order-preserving merges of 12 (thorough 17) train shapes (up to 5x5, 3x3x3, 2x2x2x2; thorough 4x4x4, 3x3x3x3, 4x5x5) built by the real encapsulator on fragment ids distinct modulo the slot count; for the small shapes every merge x 7 stray kinds (unknown / aliasing id intermediate and end, accepted and rejected complete packet, padding) x every insertion position; restart on the same id; sampled 4x5 merges with aliasing strays.",
+             "All order-preserving merges of 12 (thorough 17) train shapes (up to 5x5, 3x3x3, 2x2x2x2; thorough 4x4x4, 3x3x3x3, 4x5x5) built by the real encapsulator on fragment ids distinct modulo the slot count; for the small shapes every merge x 7 stray kinds (unknown / aliasing id intermediate and end, accepted and rejected complete packet, padding) x every insertion position; restart on the same id (also across label modes and with a full free list); framed strays; refused first fragments of aliasing ids; a PDU in flight on all 256 ids; sampled 4x5 merges with aliasing strays.",
              "Merges are closed for the listed shapes only." + COMMON_NOTE, "DESIGN.md §5 C07"),
     "C08": X("conservation invariant at every quiescent point (clone-and-drain census of the bundled memory vs. the set of buffers ever created, identity = unique length) + failure injection at the GseDecapMemory trait boundary",
              "Random histories of provision / decap (packets targeted at each error exit + hostile) / reset with a full census after every call; then for seeded scenarios every memory operation behind the trait is failed in turn with every documented error (underflow, overflow(buf), too-small(buf), undefined id, corrupted) and the census repeated.",
@@ -40,7 +40,7 @@ CHECKS = {
              "Every call of the sender workload (L x L lattice incl. PDUs > 4095 with buffers > 4097 and PDUs 65534..70000, all protocol types, zero / explicit re-use labels, arbitrary ContextFrag values, extension lists, prior configuration + traffic prefixes) is checked for panics; on Err the buffer must be unchanged, the encapsulator equal to its snapshot and three follow-up calls identical to a never-called twin; previews are run on the same arguments.",
              "State equality uses the crate's derived PartialEq plus the behavioural twin." + COMMON_NOTE, "DESIGN.md §5 C09"),
     "C10": X("twin-receiver differential: frames of real encapsulator output walked by consumed lengths vs. each packet decapsulated alone; tail-independence variants",
-             "Seeded frames of up to 40 packets from up to 4 PDUs in flight (trains continue across frames, label memories reset per frame on both sides, signalling protocol types and extensions included), 0..64 padding bytes, listed corruptions (bad CRC, other frag id), receivers short of storage; plus single packets followed by nothing / zeros / 0xFF / random / another packet on identically prepared receivers.",
+             "Seeded frames of up to 40 packets from up to 4 PDUs in flight (trains continue across frames, label memories reset per frame on both sides, signalling protocol types and extensions included), 0..64 padding bytes, listed corruptions (bad CRC, other frag id), receivers short of storage; plus single packets followed by nothing / zeros / 0xFF / random / another packet on identically prepared receivers; lost packets; reassemblies near 65535 bytes; twin and walker on a memory wrapper that refuses the same operation.",
              "Frames are sampled; equality is on outcome (status / error variant, metadata, PDU hash) and consumed length." + COMMON_NOTE, "DESIGN.md §5 C10"),
     "C11": X("trace monitor on successive EncapStatus values with payload slices located by the independent parser; bounded-progress counter on whole runs",
              "Sender workload as C06 plus whole PDUs driven to completion under constant-7, constant-8 and random >= 7 byte schedules: first-fragment context == payload carried, each continuation advances by exactly the bytes written or is the CRC-bearing end packet, payloads are consecutive slices, no empty intermediate fragment, completion within remaining+1 calls.",
@@ -55,22 +55,22 @@ CHECKS = {
              "Both directions of the header codec are executed on the complete finite input space and compared with an independent reading of the header layout; panics are observed with catch_unwind. Exhaustive: for this property a clean run is a complete decision for the build profiles exercised.",
              "" + COMMON_NOTE, "DESIGN.md §5 C14"),
     "C15": X("sender-only trace automaton over label-type bits of emitted packets: exhaustive bounded-depth histories + random + counter saturation",
-             "All histories to depth 4 (quick) / 5 (thorough) over a 27-operation alphabet, random histories of 300..3000 operations with N in 1..=255, and enable_max(N) + 600 identical labels for every N; clauses: no substitution while disabled, at most N consecutive substitutions, none after reset / broadcast, only for a label equal to the one carried by the immediately preceding emitted start/complete packet.",
-             "Weakest readings: explicit re-use labels and configuration calls end a run; N = 0 means unlimited as documented." + COMMON_NOTE, "DESIGN.md §5 C15"),
+             "All histories to depth 4 (quick) / 5 (thorough) over an alphabet of about 40 operations (listed in the evidence file), random histories of 300..3000 operations with N in 1..=255, and enable_max(N) + 600 identical labels for every N; clauses: no substitution while disabled, at most N consecutive substitutions, none after reset / broadcast, only for a label equal to the one carried by the immediately preceding emitted start/complete packet.",
+             "Literal reading: only an emitted packet that carries a full or broadcast label ends a run of substitutions (configuration calls and explicit re-use labels do not); N = 0 means unlimited as documented; labels are compared by kind and bytes, never through the crate's own equality." + COMMON_NOTE, "DESIGN.md §5 C15"),
     "C16": X("recovery probe appended to hostile histories on every receiver-state recipe",
-             "Seeded prefixes of 1..200 hostile packets on 13 receiver states, then reset + one provisioned buffer, a valid complete packet and a valid fragmented PDU (real encapsulator output) on a seeded fragment id (all 256 reachable) and label kind; both must be delivered intact.",
-             "Prefixes that panic are C05 findings and are counted as inconclusive for C16 (floor: >= 95% conclusive)." + COMMON_NOTE, "DESIGN.md §5 C16"),
+             "Seeded prefixes of 1..200 hostile buffers (packets with trailing bytes, storage provisioned at random incl. up to 'full') on 15 receiver states (+ one with all 256 ids open; one receiver in three with max_pdu_frag = 8), then reset + one provisioned buffer, a valid complete packet (half with an extension header) and a valid fragmented PDU (real encapsulator output, a third with an extension header) on a seeded fragment id (all 256 reachable) and label kind; both must be delivered intact with exactly their own metadata; one history in three ends with the shadow of the probe's first fragment.",
+             "A decap call of the prefix that panics is a violation (the sequence of calls cannot be completed)." + COMMON_NOTE, "DESIGN.md §5 C16"),
     "C17": X("executable bag model compared after every operation; exhaustive operation sequences to bounded depth + long random sequences; drained-clone audit",
-             "For memories of 1..4 slots every sequence of depth 5 (quick) / 7 (thorough) over provision (below / at / above size), new_pdu, new_frag, take_frag on aliasing and non-aliasing ids and save_frag; random sequences up to 10000 operations incl. 256 slots; free-list capacity calibrated, buffers tagged.",
+             "For memories of 1..4 slots every sequence of depth 5 (quick) / 7 (thorough) over provision (below / at / above size), new_pdu, new_frag, take_frag on aliasing and non-aliasing ids and save_frag; random sequences up to 10000 operations incl. 255 / 256 slots; foreign and over-sized buffers; contexts with extensions and look-alike fields; a context pending on all 256 ids at once; free-list capacity calibrated, buffers tagged.",
              "" + COMMON_NOTE, "DESIGN.md §5 C17"),
     "C18": X("differential: preview vs real call on identical arguments over the sender workload",
-             "encap_preview vs encap (on an encapsulator without remembered label) and encap_frag_preview vs encap_frag for every call of the sender workload (L x L lattice, all protocol types in thorough, every context position of small PDUs): same error, or same kind / packet length (/ payload length).",
+             "encap_preview vs encap (on an encapsulator without remembered label, and vs the call actually made whenever that call did not substitute a re-use label) and encap_frag_preview vs encap_frag for every call of the sender workload (L x L lattice, all protocol types in thorough, every context position of small PDUs): same error, or same kind / packet length (/ payload length).",
              "Inputs on which the real call panics are C09 findings and skipped here." + COMMON_NOTE, "DESIGN.md §5 C18"),
     "C19": X("differential: peek vs sender knowledge vs independent parser vs decap on every packet of the frame workload, alone and followed by bytes",
-             "Every packet emitted in the C10 frame workload (all kinds, labels, substituted and explicit re-use, extensions) is peeked alone and followed by 1..16 bytes.",
+             "Every packet emitted in the C10 frame workload (all kinds, labels, substituted and explicit re-use, extensions) is peeked alone, followed by 1..16 bytes and (sampled) at the head of a 64 KiB buffer, before and after its decapsulation and with a peek at another packet in between; what decap then reports must be the packet's own label / the sender's PDU of that fragment id.",
              "" + COMMON_NOTE, "DESIGN.md §5 C19"),
     "C20": X("three-way differential: utils generate/parse vs independent serialiser vs encapsulator output vs decapsulator acceptance, every payload length 0..=4000",
-             "For every payload length 0..=4000 and all label kinds: generate == reference serialisation == encapsulator output for the same fields; parse(generate(p)) == p; decap accepts with the same field values (first fragments are completed with a utils-generated end fragment).",
+             "For every payload length 0..=4000 and all label kinds: generate == reference serialisation == encapsulator output for the same fields; parse(generate(p)) == p; decap accepts with the same field values (first fragments are completed with a utils-generated end fragment); total lengths up to 65535; two trains in flight for every fragment id on 256 / 255 / 3 / 7-slot memories.",
              "" + COMMON_NOTE, "DESIGN.md §5 C20"),
 }
 
